@@ -236,6 +236,53 @@ type Sim struct {
 	Timeout  time.Duration
 	Stats    *Stats
 	seq      int
+	// retryOnTimeout: a child that exceeds the watchdog aborts the evaluation of the scenario, which is then repeated
+	// from its initial world with a longer watchdog (an overloaded machine must not look like a hanging program)
+	retryOnTimeout bool
+}
+
+// watchdogRetry is the panic value that carries a watchdog expiry up to evalGuarded.
+type watchdogRetry struct{}
+
+// evalGuarded evaluates a scenario; when a child exceeds the watchdog the whole evaluation is repeated from the initial
+// world with a three times longer watchdog, at most twice. A child that still does not finish is a hanging program, and
+// its result (exit -1, timed out) is judged by the oracles like any other.
+func evalGuarded(prop *Property, sc *Scenario, sim *Sim) (viol []Violation, nontrivial bool, key string) {
+	base := sim.Timeout
+	if base == 0 {
+		base = 20 * time.Second
+	}
+	if ms := os.Getenv("CRSSIM_WATCHDOG_MS"); ms != "" { // test knob for the retry path
+		if n, err := strconv.Atoi(ms); err == nil && n > 0 {
+			base = time.Duration(n) * time.Millisecond
+		}
+	}
+	defer func() { sim.Timeout, sim.retryOnTimeout = base, false }()
+	sim.Timeout = base
+	for attempt := 0; attempt < 3; attempt++ {
+		retry := false
+		func() {
+			defer func() {
+				if r := recover(); r != nil {
+					if _, ok := r.(watchdogRetry); ok {
+						retry = true
+						return
+					}
+					panic(r)
+				}
+			}()
+			sim.retryOnTimeout = attempt < 2
+			viol, nontrivial, key = prop.Eval(sc, sim)
+		}()
+		if !retry {
+			return
+		}
+		if sim.Stats != nil {
+			sim.Stats.probe("watchdog-expired-scenario-repeated")
+		}
+		sim.Timeout *= 3
+	}
+	return
 }
 
 type Sandbox struct {
@@ -516,6 +563,9 @@ func (sb *Sandbox) Run(st Step) Result {
 		_ = syscall.Kill(-cmd.Process.Pid, syscall.SIGKILL)
 		<-done
 		res.TimedOut = true
+		if sb.sim.retryOnTimeout {
+			panic(watchdogRetry{})
+		}
 	}
 	res.Stdout = stdout.Bytes()
 	res.Stderr = stderr.Bytes()
